@@ -74,3 +74,39 @@ Proof. intros H. rewrite sp_scale_get, (sp_prod_get first rest i H). reflexivity
 Theorem sp_cols_wf a b s v n c k codes st :
   (spwf a -> spwf (sp_mul a b)) /\ (spwf a -> spwf (sp_scale s a)) /\ spwf (sp_const v n) /\ spwf (sp_of_dense c st) /\ spwf (sp_dummy codes k st).
 Proof. repeat split; [apply sp_mul_wf | apply sp_scale_wf | apply sp_const_wf | apply sp_of_dense_wf | apply sp_dummy_wf]. Qed.
+
+(* ---------- the sparse Kronecker product of a term, row by row ---------- *)
+(* the Kronecker product of one row's cells: what the dense path computes at that row *)
+Fixpoint ckron (fs : list (list (key * Qc))) : list (key * Qc) :=
+  match fs with
+  | [] => []
+  | [f] => f
+  | f :: rest => flat_map (fun rc => map (fun fc => (fst fc ++ [58%N] ++ fst rc, (snd fc * snd rc)%Qc)) f) (ckron rest)
+  end.
+Definition row_of (i : nat) (f : list (key * spcol)) : list (key * Qc) := map (fun nc => (fst nc, sp_get (snd nc) i)) f.
+
+Lemma flat_map_map {A B C} (g : B -> list C) (h : A -> B) l : flat_map g (map h l) = flat_map (fun x => g (h x)) l.
+Proof. induction l as [|x r IH]; cbn; [reflexivity | rewrite IH; reflexivity]. Qed.
+Lemma map_flat_map {A B C} (h : B -> C) (g : A -> list B) l : map h (flat_map g l) = flat_map (fun x => map h (g x)) l.
+Proof. induction l as [|x r IH]; cbn; [reflexivity | rewrite map_app, IH; reflexivity]. Qed.
+
+Theorem sp_kron_rowwise i fs : Forall (Forall (fun nc => spwf (snd nc))) fs ->
+  row_of i (sp_kron fs) = ckron (map (row_of i) fs).
+Proof.
+  induction fs as [|f rest IH]; intro H; [reflexivity|].
+  inversion H as [|? ? Hf Hrest]; subst. specialize (IH Hrest).
+  destruct rest as [|g rest']; [reflexivity|].
+  change (sp_kron (f :: g :: rest')) with (flat_map (fun rc => map (fun fc => (fst fc ++ [58%N] ++ fst rc, sp_mul (snd fc) (snd rc))) f) (sp_kron (g :: rest'))).
+  change (ckron (map (row_of i) (f :: g :: rest'))) with
+    (flat_map (fun rc => map (fun fc => (fst fc ++ [58%N] ++ fst rc, (snd fc * snd rc)%Qc)) (row_of i f)) (ckron (map (row_of i) (g :: rest')))).
+  rewrite <- IH. unfold row_of at 1. rewrite map_flat_map. unfold row_of at 2. rewrite flat_map_map.
+  apply flat_map_ext. intro rc. unfold row_of. rewrite !map_map. cbn [fst snd].
+  apply map_ext_in. intros fc Hfc. rewrite sp_mul_get; [reflexivity|]. rewrite Forall_forall in Hf. exact (Hf fc Hfc).
+Qed.
+(* with the scale: every cell of every column of the sparse term is scale times the dense Kronecker cell *)
+Theorem sp_term_cols_rowwise scale i fs : Forall (Forall (fun nc => spwf (snd nc))) fs ->
+  row_of i (sp_term_cols scale fs) = map (fun nc => (fst nc, (scale * snd nc)%Qc)) (ckron (map (row_of i) fs)).
+Proof.
+  intro H. rewrite <- (sp_kron_rowwise i fs H). unfold sp_term_cols, row_of. rewrite !map_map. cbn [fst snd].
+  apply map_ext. intro nc. rewrite sp_scale_get. reflexivity.
+Qed.
